@@ -521,8 +521,10 @@ def check_property(mod, tier, seed, replay=None):
     }
     if hasattr(mod, "extra_evidence"):
         ev["coverage"].update(mod.extra_evidence(cases, obss))
-    EVIDENCE.mkdir(exist_ok=True)
-    (EVIDENCE / f"{pid}.json").write_text(json.dumps(ev, indent=1, default=str))
+    # evidence belongs to /repo itself: runs against a scratch copy (mutation experiments) write elsewhere
+    evdir = EVIDENCE if str(REPO) == "/repo" else (VERIF / "work" / "evidence_scratch")
+    evdir.mkdir(parents=True, exist_ok=True)
+    (evdir / f"{pid}.json").write_text(json.dumps(ev, indent=1, default=str))
 
     for l in known_lines:
         print(l)
